@@ -38,6 +38,7 @@ type Prog struct {
 	Ctl     map[string][]*ssa.Function // positive-control packages by name
 	DepVers map[string]string
 	fnIndex map[string]*ssa.Function
+	callers map[*ssa.Function]map[*ssa.Function]bool
 }
 
 type LoadOpts struct {
